@@ -86,10 +86,7 @@ func Run(ctx *c01.Ctx, sc *Scn) (evs []trace.Ev, note string) {
 		"rgb": vx.CanRGB(), "kittyGraphics": vx.CanKittyGraphics(), "sixel": vx.CanSixel(), "color": vx.CanReportColor(),
 		"fg": vx.CanReportForegroundColor(), "bg": vx.CanReportBackgroundColor(), "graphics": vx.CanDisplayGraphics(),
 		"appid": vx.CanSetAppID(), "unicodeCore": vx.CanUnicodeCore(), "explicitWidth": vx.CanExplicitWidth()}})
-	want := make([][]c01.CellD, sc.Rows)
-	for r := range want {
-		want[r] = make([]c01.CellD, sc.Cols)
-	}
+	want := c01.NewRec(sc.Cols, sc.Rows, cv)
 	cur := []int{0, 0, 0, 0}
 	for _, f := range sc.Frames {
 		win := vx.Window()
@@ -97,9 +94,7 @@ func Run(ctx *c01.Ctx, sc *Scn) (evs []trace.Ev, note string) {
 			switch op.K {
 			case "set":
 				win.SetCell(op.C, op.R, op.Cell.V())
-				if op.C >= 0 && op.C < sc.Cols && op.R >= 0 && op.R < sc.Rows {
-					want[op.R][op.C] = *op.Cell
-				}
+				want.Apply(op)
 			case "show":
 				vx.ShowCursor(op.C, op.R, vaxis.CursorStyle(op.Shape))
 				cur = []int{1, op.R + 1, op.C + 1, op.Shape}
@@ -117,13 +112,7 @@ func Run(ctx *c01.Ctx, sc *Scn) (evs []trace.Ev, note string) {
 			vx.Render()
 		}
 		evs = append(evs, cv.Feed(s.Con.Take())...)
-		app := make([][][]int, sc.Rows)
-		for r := range want {
-			app[r] = make([][]int, sc.Cols)
-			for c := range want[r] {
-				app[r][c] = appCell(cv, ctx.L, want[r][c])
-			}
-		}
+		app := want.App(cv, ctx.L)
 		// rgb / su: which fallbacks the terminal's advertisement calls for (what it said, not what Vaxis made of it)
 		evs = append(evs, trace.Ev{"ev": "frame", "app": app, "cur": cur, "rgb": caps.RGB, "su": caps.Smulx || caps.VTE})
 	}
